@@ -85,6 +85,7 @@ def mk_zone(pos, posm, iv):
     z[PZ + '_margin_len'] = O.Op()
     z[PZ + '_margin_weight'] = O.Op()
     z[PZ + '_dbg'] = O.Ptr(None)         # tracing builds: no debug output attached
+    z[PZ + '_dbgs'] = O.Vec()
     return z
 
 
@@ -954,10 +955,52 @@ def _num(s):
         return None
 
 
+def initialise_exec(run, fx):
+    """ZONESET, the base case, on a RE-USED set: Zones::initialise is interpreted (rules/ordint.py) on interval sets that already hold
+    0..3 intervals from the glyph fixed before (the colliders live for a whole pass and are initialised once per glyph).  Afterwards the
+    set is exactly one open interval [xmin, xmax] -- whatever it held before: nothing of the previous glyph's intervals or bounds
+    survives -- and the bounds are the new ones."""
+    keys = [k for k in fx.raw['functions'] if k.startswith('_ZN9graphite25Zones10initialise')]
+    if len(keys) < 2:
+        run.broken('ZONESET', 'initialise leaves one open interval over the new range', 'the two instantiations of Zones::initialise were not found')
+        return
+    cases = 0
+    for key in sorted(keys):
+        fn = fx.fn(key)
+        inst = 'initialise leaves one open interval over the new range (%s, interpreted)' % fn.f.get('qt', key).split('<')[-1].rstrip('>')
+        prob = None
+        try:
+            for old in ([], [(2, 4)], [(1, 2), (5, 6)], [(0, 1), (2, 3), (8, 9)]):
+                for (xmin, xmax) in ((3, 7), (0, 9), (5, 5)):
+                    z = mk_zone(0, 9, old)
+                    it = O.Interp(fx)
+                    it.coords_may_feed_costs = True
+                    it.MAX_STEPS = 4000
+                    cases += 1
+                    it.call(fn, z, [O.Co(xmin), O.Co(xmax), O.Op(), O.Op(), O.Op()])
+                    ex = z[PZ + '_exclusions'].items
+                    desc = 'a set that held %s, initialised for [%s, %s]' % (old or 'nothing', xmin, xmax)
+                    got = [(r[PX + 'x'].v if isinstance(r[PX + 'x'], O.Co) else '?', r[PX + 'xm'].v if isinstance(r[PX + 'xm'], O.Co) else '?', bool(r[PX + 'open'])) for r in ex]
+                    if got != [(xmin, xmax, True)]:
+                        prob = '%s: afterwards it holds %s, expected the single open interval [(%s, %s, open)] -- intervals of the glyph fixed before survive into this one' % (desc, got, xmin, xmax)
+                        break
+                    if z[PZ + '_pos'].v != xmin or z[PZ + '_posm'].v != xmax:
+                        prob = '%s: the bounds are [%s, %s] afterwards' % (desc, z[PZ + '_pos'].v, z[PZ + '_posm'].v)
+                        break
+                if prob:
+                    break
+        except O.Violation as v:
+            prob = '%s (%s)' % (v.what, v.loc)
+        if prob:
+            run.violated('ZONESET', inst, fn.where(), prob)
+        else:
+            run.held('ZONESET', inst, fn.where(), '%d abstract executions' % cases)
+
+
 def run(run):
     fx = run.facts('Q0')
     N = 4 if run.tier == 'thorough' and not run.cfg_tag else 3
-    for name, f in (('ZONESET', lambda: zoneset(run, fx, N)), ('ZONEWRITERS', lambda: zonewriters(run, fx)),
+    for name, f in (('ZONESET', lambda: zoneset(run, fx, N)), ('ZONESET', lambda: initialise_exec(run, fx)), ('ZONEWRITERS', lambda: zonewriters(run, fx)),
                     ('OFFERED', lambda: offered(run, fx, N)), ('RESOLVED', lambda: resolved(run, fx)), ('RESOLVED', lambda: verdictshift(run, fx)),
                     ('LIMITARGS', lambda: limitargs(run, fx)), ('LIMITARGS', lambda: kernclamp(run, fx)), ('LIMITARGS', lambda: initfresh(run, fx)), ('RESOLVED', lambda: axisbase(run, fx)), ('LIMITARGS', lambda: limitdiag(run, fx)), ('LIMITARGS', lambda: targetown(run, fx))):
         try:
